@@ -11,3 +11,58 @@ include!(env!("VERIF_SLICE_C06"));
 include!(env!("VERIF_SLICE_C11"));
 include!(env!("VERIF_SLICE_C07"));
 include!(env!("VERIF_SLICE_C16"));
+
+// C16 -- the collector's hand-over of completed function calls: `drain_function_calls` returns every completed call exactly
+// once, ordered by the provider's output_index (arrival order among equal indices), and leaves nothing behind, so a second
+// drain -- the next loop iteration -- cannot execute a call again. Real ToolCallCollector / FunctionCallItem; the three calls
+// have ARBITRARY output_index values (duplicates, u64::MAX included); ids alias static bytes (no heap Strings to drop).
+macro_rules! c16_drain {
+    ($name:ident, $n:expr) => {
+        #[kani::proof]
+        #[kani::unwind(8)]
+        #[kani::stub(std::hash::RandomState::new, stub_random_state_new)]
+        fn $name() {
+            let ids = ["A", "B", "C"];
+            let idx: [u64; 3] = [kani::any(), kani::any(), kani::any()];
+            let mut calls: Vec<FunctionCallItem> = Vec::with_capacity(3);
+            let mut i = 0;
+            while i < $n {
+                calls.push(FunctionCallItem { output_index: idx[i], call_id: lit(ids[i]), item_id: None, name: lit("n"), arguments: lit("{}") });
+                i += 1;
+            }
+            let mut c = ToolCallCollector { response_id: None, function_call_by_item_id: HashMap::new(), item_id_by_call_id: HashMap::new(),
+                                            completed_function_calls: calls };
+            let out = c.drain_function_calls();
+            assert!(out.len() == $n, "drain_function_calls loses or duplicates a completed call");
+            let mut seen = [0u8; 3];
+            let mut k = 0;
+            while k < $n {
+                let b = out[k].call_id.as_bytes()[0];
+                let pos = (b - b'A') as usize;
+                seen[pos] += 1;
+                assert!(out[k].output_index == idx[pos], "a call changed its output_index in the hand-over");
+                if k + 1 < $n {
+                    let nb = out[k + 1].call_id.as_bytes()[0];
+                    assert!(out[k].output_index <= out[k + 1].output_index, "calls are not handed over in the provider's output order");
+                    if out[k].output_index == out[k + 1].output_index {
+                        assert!(b < nb, "calls with the same output_index are not handed over in arrival order");
+                    }
+                }
+                k += 1;
+            }
+            k = 0;
+            while k < $n {
+                assert!(seen[k] == 1, "drain_function_calls loses or duplicates a completed call");
+                k += 1;
+            }
+            let again = c.drain_function_calls();
+            assert!(again.is_empty(), "a second drain hands the same calls out again");
+            kani::cover!($n < 2 || idx[0] > idx[1], "calls arrived out of output order");
+            core::mem::forget(out);
+            core::mem::forget(again);
+            core::mem::forget(c);
+        }
+    };
+}
+c16_drain!(c16_drain_n2, 2);
+c16_drain!(c16_drain_n3, 3);
